@@ -454,11 +454,18 @@ def n_jobs():
     return max(HASH_CLASSES, (j // HASH_CLASSES) * HASH_CLASSES)
 
 
+# runs re-executed by every quick check for the determinism sample: the first 24, and runs that belong
+# to the volume batches of the four properties (C09 long: 33 mod 40; C17 long: 49 mod 50; C15 long:
+# 93, 97 mod 100; C14 wide: 99 mod 100)
+DET_SAMPLE = frozenset(list(range(24)) + [33, 49, 73, 93, 97, 99, 113, 149])
+
+
 class Batch(object):
     """Execute runs [0, n) of a property and merge the results."""
 
     def __init__(self, prop, seed, tier, n_runs, wall_cap, jobs=None, chunk=None,
-                 keep_digests=False, quiet=False):
+                 keep_digests=False, quiet=False, run_list=None):
+        self.run_list = run_list          # explicit run numbers instead of range(n_runs)
         self.prop, self.seed, self.tier = prop, seed, tier
         self.n_runs, self.wall_cap = n_runs, wall_cap
         self.jobs = jobs or n_jobs()
@@ -484,7 +491,10 @@ class Batch(object):
         chunk = self.chunk or max(1, min(100, self.n_runs // (self.jobs * 8) or 1))
         pending = {c: [] for c in range(HASH_CLASSES)}
         for c in range(HASH_CLASSES):
-            runs = list(range(c, self.n_runs, HASH_CLASSES))
+            if self.run_list is not None:
+                runs = [r for r in self.run_list if r % HASH_CLASSES == c]
+            else:
+                runs = list(range(c, self.n_runs, HASH_CLASSES))
             for i in range(0, len(runs), chunk):
                 pending[c].append(runs[i:i + chunk])
         sel = selectors.DefaultSelector()
@@ -575,7 +585,7 @@ class Batch(object):
                 self.run_digests[r] = d
         else:
             for r, d in rep['digests']:
-                if r < 32:
+                if r in DET_SAMPLE:
                     self.run_digests[r] = d
 
 
